@@ -137,6 +137,13 @@ the machinery, never in the properties:
   the explicit `take()` dropped from `Drop for StateIteratorSubscriber` (my clause on drop glue was pointless and was
   removed); `last_value.as_ref() == Some(&selected)` (PartialEq on a generic type is uninterpreted for Verus: any
   comparison of `Output` values other than the rewritten one makes `on_notify` undecided, `//@forbid`);
+* a second round of equivalent mutants (5 of 24 raised an alarm): `Effect::Function` sent through `dispatch_thunk` with an
+  ignored dispatcher (the witness compared the entry point: now only the number of hand-overs, thunks at least as many);
+  `Drop for StoreImpl` without its `close()` (unreachable with an open store: the reducer job owns a handle until the loop
+  has ended — now the precondition A10 of that contract); `next()` leaving the release of the subscription to `Drop`
+  (the clause now requires the receiver gone and "released at most once, here or at drop"); DropOldest counting an evicted
+  item of any kind (an evicted marker cannot occur, A2b: its count is left open); `unsubscribe()` called twice in
+  `Drop for StateIterator` (the record of released subscriptions is idempotent, like the call);
 * (found by review, not by an edit) the model pinned `action_executed`, `effect_executed`, `state_notified`,
   `subscriber_notified` and "the shutdown marker counts as received" → only the counters of the balance
   equations are modelled, the marker may or may not be booked.
